@@ -290,6 +290,25 @@ def run (ctx):
                "io_worker.peek(): the error carries the *next* message's xid/bytes (or none)" % stale[0].line,
                (rd.module, e.ast), 'D3')
 
+  # the request travels with the work: a helper that takes the request (`ofp`, used for the xid of error replies) gets the
+  # caller's request whenever the caller has one
+  n_thr = 0
+  for m_ in sw.methods.values():
+    if 'ofp' not in m_.params: continue
+    for c in calls_in(m_.node):
+      if not (isinstance(c.func, ast.Attribute) and norm(c.func.value) == 'self'): continue
+      cal = sw.find_method(call_name(c))
+      if cal is None or 'ofp' not in cal.params or any(isinstance(a, ast.Starred) for a in c.args) or any(k.arg is None for k in c.keywords): continue
+      i = cal.params.index('ofp') - 1
+      a = c.args[i] if i < len(c.args) else None
+      for k in c.keywords:
+        if k.arg == 'ofp': a = k.value
+      n_thr += 1
+      good = a is not None and norm(a) == 'ofp'
+      ctx.ob('R-AGREE', m_, "`%s` receives the request being served" % norm(c)[:50], good, "ofp=ofp" if good else
+             "%s has the request in `ofp` but calls %s with ofp=%s: an error raised while the helper works (bad action, bad port) is sent with xid 0 and without the request's bytes - "
+             "the controller cannot match it to its request" % (m_.name, cal.name, norm(a) if a is not None else 'omitted (default None)'), (swmod, c), 'D3')
+  ctx.floor('request hand-over sites', n_thr, 4)
   # ---- D4 synchronous ------------------------------------------------------
   for f in scan + [sw.find_method('rx_message'), se, sw.find_method('send')]:
     if f is None: continue
